@@ -77,7 +77,8 @@ CLAIMED = {
                 "history of reader calls on the two files - iterate any number of items, random access, seek, count, size hint - "
                 "the index parses to n entries and each call returns what the abstract reader over the written shapes returns: "
                 "count = n, read_nth i = i-th shape for i < n and nothing beyond, size hint = shapes still to come, iteration as "
-                "without index). Tie: writer and reader histories on generated files incl. one with more than 1024 records; "
+                "without index). Tie: writer and reader histories (refused writes in between, measured types without any "
+                "measure, iterator adaptors) on generated files incl. one with more than 1024 records; "
                 "oracle: independent parse of the real .shx against a walk of the real .shp; path-created pairs compared with the "
                 "in-memory bytes.",
         "note": COMMON_NOTE + "Guards FileFits, RecordsFit. Files created by path (BufWriter<File>) are covered by the harness "
@@ -113,7 +114,8 @@ CLAIMED = {
                 "whose type has code c), C06_try_from, C06_from_tryfrom (concrete -> generic -> concrete is the identity), "
                 "C06_bulk (bulk conversion = all values, or the error of the first foreign one). Tie: exhaustive 13 x 14 "
                 "requested/actual matrix through the real TryFrom/From/HasShapeType/convert_shapes_to_vec_of and through real "
-                "files of every actual type read as every requested type.",
+                "files of every actual type read as every requested type: by iteration, by typed random access "
+                "(read_nth_shape_as) and in bulk (read_as / read), also under a header announcing another type.",
         "note": COMMON_NOTE + "A concrete Rust value of ESRI type t is modelled as a shape with type_of = t, so From is the "
                 "identity of the model (the wrapping in the enum variant is checked by the harness rendering).",
         "technique": "Coq proof (typing of reading programs, case analysis over the 14 kinds) + exhaustive differential "
@@ -177,7 +179,9 @@ CLAIMED = {
                 "call returns MismatchShapeType naming the file's type and the offered type; writer state and both destinations "
                 "- buffers, positions, operation counters, logs - are returned unchanged) and C10_erase (final files equal those "
                 "of the history with rejected calls removed). Tie: all 13x12 ordered type pairs, rejected call inserted at every "
-                "position of bounded histories; traces must be equal.",
+                "position of bounded histories; traces must be equal; the rejected call also right after a finalize that "
+                "failed and right after a first write that failed part-way (faults injected); the rejected pair through the "
+                "complete Writer and the real dbase (its row is not written).",
         "note": COMMON_NOTE + "The complete writer's attribute row (not written for a rejected shape) belongs to C08's model.",
         "technique": "Coq proof (writer invariant, case analysis on the type comparison) + exhaustive type-pair differential "
                      "correspondence + trace oracle",
@@ -255,7 +259,9 @@ CLAIMED = {
                 "and after, any physical order, overlaps allowed) and for every history of reader calls, each call returns what "
                 "the abstract reader over the records in INDEX order returns; corollaries C14_iteration_is_index_order, "
                 "C14_nth_agrees. Tie: reference-encoder files with permuted physical order and filler gaps (odd and even word "
-                "counts, random and record-like content), generic and typed, several call histories; oracle on the real output.",
+                "counts, random and record-like content), generic and typed, several call histories incl. iterator adaptors "
+                "(skip/take), an index of more than 1024 entries, entries pointing beyond the end of the .shp (word offsets up to "
+                "i32::MAX); oracle on the real output.",
         "note": COMMON_NOTE + "Indexed includes zlen data < 2^63 (positions fit usize).",
         "technique": "Coq proof (invariant of the indexed reader: source position known or marked unknown; refinement to an "
                      "abstract reader) + differential correspondence on permuted/filler layouts",
@@ -268,8 +274,9 @@ CLAIMED = {
                 "C15_nth_and_count_stable, C15_iteration, C15_partial_iteration, C15_positions spell out the abstract reader "
                 "(random access independent of position; iteration yields the records from the current position - 0 when fresh "
                 "or after a successful random access, min(k,n) after seek(k), where the previous iteration stopped otherwise - "
-                "to the last, then ends). Tie: exhaustive bounded call histories on files with different-size and equal-size "
-                "records.",
+                "to the last, then ends). Tie: exhaustive bounded call histories (iterate, random access, seek, count, "
+                "iterator adaptors skip/take) on files with different-size records, equal-size records and a null-shape "
+                "record in the middle.",
         "note": COMMON_NOTE + "The theorem is about ShapeReader with an index; the complete Reader's attribute rows following "
                 "the same positions is exercised by the pair histories of C08 (dbase modelled as a row store).",
         "technique": "Coq proof (refinement of the reader state machine to an abstract reader, by induction over call histories) "
